@@ -110,6 +110,13 @@ Proof.
 Qed.
 Print Assumptions C13_labels.
 
+(* "label: value" can be read back in one way only: no label contains a colon *)
+Theorem C13_label_value_unambiguous : forall c tag v c' tag' v',
+  type_string c tag ++ bs ": " ++ v = type_string c' tag' ++ bs ": " ++ v' ->
+  type_string c tag = type_string c' tag' /\ v = v'.
+Proof. exact label_value_unambiguous. Qed.
+Print Assumptions C13_label_value_unambiguous.
+
 (* T1: the regenerated name table agrees with the X.680 list, no name contains a colon or is a numeral *)
 Theorem C13_names_table_ok : names_ok asn1_tag_names = true.
 Proof. exact names_ok_now. Qed.
